@@ -463,3 +463,23 @@ M("c15-deferred-sent-only-on-return", "C15", "C15.RESULT", (SNAP, "            s
 M("c15-class-level-store", "C15", "C15.THREAD", (TLF, "        self.__store = threading.local()\n", "        self.__store = ThreadLocal._shared\n"), (TLF, "    def __init__(self, default_provider: Callable[[], T] = lambda: None):", "    _shared = threading.local()\n\n    def __init__(self, default_provider: Callable[[], T] = lambda: None):"))
 M("c15-ident-keyed", "C15", "C15.THREAD", (TLF, "        return hasattr(self.__store, 'value')", "        return hasattr(self.__store, 'value') and threading.current_thread().ident is not None"))
 M("c15-shared-callbacks", "C15", "C15.THREAD", (TH, "        self._callbacks: ThreadLocal[Deque[CallbackContext]] = ThreadLocal(lambda: deque())", "        self._callbacks: ThreadLocal[Deque[CallbackContext]] = _CALLBACKS"), (TH, "class TriggerHandler:\n", "_CALLBACKS = ThreadLocal(lambda: deque())\n\n\nclass TriggerHandler:\n"))
+
+# ------------------------------------------------------------------ C02
+M("c02-caller-line", "C02", "C02.FRAME", (FCOL, "        lineno = frame.f_lineno\n", "        lineno = frame.f_code.co_firstlineno\n"))
+M("c02-swapped-file-method", "C02", "C02.FRAME", (FCOL, "        return StackFrame(filename, short_path, func_name, lineno, var_ids, class_name,", "        return StackFrame(filename, short_path, lineno, func_name, var_ids, class_name,"))
+M("c02-trigger-frame-locals", "C02", "C02.FRAME", (FCOL, "        f_locals = frame.f_locals\n", "        f_locals = self.__frame.f_locals\n"))
+M("c02-class-of-cls", "C02", "C02.FRAME", (FCOL, "        _self = f_locals.get('self', None)", "        _self = f_locals.get('cls', None)"))
+M("c02-skip-frames", "C02", "C02.WALK", (FCOL, "            current_frame = current_frame.f_back\n", "            current_frame = current_frame.f_back.f_back if current_frame.f_back else None\n"))
+M("c02-reverse-stack", "C02", "C02.WALK", (FCOL, "            collected_frames.append(frame)\n", "            collected_frames.insert(0, frame)\n"))
+M("c02-start-at-caller", "C02", "C02.WALK", (SNAP, "collector = FrameCollector(self, self.trigger_context.frame)", "collector = FrameCollector(self, self.trigger_context.frame.f_back)"))
+M("c02-hash-of-type", "C02", "C02.VAR", (VPF, "    variable = Variable(str(variable_type.__name__), variable_value_str, identity_hash_id, [], truncated)", "    variable = Variable(str(variable_type.__name__), variable_value_str, str(id(variable_type)), [], truncated)"))
+M("c02-type-of-type", "C02", "C02.VAR", (VPF, "    variable_type = type(node.value)\n    # create a string value of the variable", "    variable_type = type(type(node.value))\n    # create a string value of the variable"))
+M("c02-truncated-always-false", "C02", "C02.VAR", (VPF, "    variable = Variable(str(variable_type.__name__), variable_value_str, identity_hash_id, [], truncated)", "    variable = Variable(str(variable_type.__name__), variable_value_str, identity_hash_id, [], False)"))
+M("c02-size-of-repr", "C02", "C02.VAR", (VPF, "        return 'Size: %s' % len(var_value)", "        return 'Size: %s' % len(str(var_value))"))
+M("c02-all-frame-means-none", "C02", "C02.TYPE", (SNAP, "        if config_type == ALL_FRAME_TYPE:\n            return True", "        if config_type == ALL_FRAME_TYPE:\n            return False"))
+M("c02-index-constant", "C02", "C02.TYPE", (FCOL, "self.__source.should_collect_vars(len(collected_frames)))", "self.__source.should_collect_vars(0))"))
+M("c02-frames-vars-swapped", "C02", "C02.SNAP", (SNAP, "self.trigger_context.resource, frames, variables)", "self.trigger_context.resource, variables, frames)"))
+M("c02-watch-wrong-expression", "C02", "C02.SNAP", (ACX, "            return WatchResult(source, watch, variable_id), var_processor.var_lookup, log_str", "            return WatchResult(source, log_str, variable_id), var_processor.var_lookup, log_str"))
+M("c02-dict-child-wrong-value", "C02", "C02.CHILD", (VPF, "NodeValue(func(type_name, safe_str(key)), value[key], safe_str(key))", "NodeValue(func(type_name, safe_str(key)), key, safe_str(key))"))
+M("c02-list-child-names", "C02", "C02.CHILD", (VPF, "nodes.append(Node(value=NodeValue(str(total), val_), parent=parent_node))", "nodes.append(Node(value=NodeValue(str(val_), val_), parent=parent_node))"))
+R("c02-inline-locals", "C02", (FCOL, "        lineno = frame.f_lineno\n        filename = frame.f_code.co_filename\n        func_name = frame.f_code.co_name\n", "        code = frame.f_code\n        lineno = frame.f_lineno\n        filename = code.co_filename\n        func_name = code.co_name\n"))
